@@ -123,6 +123,7 @@ Proof.
   - split; [exact H|]. split; [apply lf_ok_filter | apply cs_ok_cs0].
   - split; [exact H|]. split; [exact A | apply cs_ok_cs0].
   - split; [exact H|]. split; [now apply lf_ok_replace | left; reflexivity].
+  - split; [exact H|]. split; [exact A | left; reflexivity].
 Qed.
 
 Lemma inv_fold_atoms : forall l x, Forall atom_ok l -> Inv x -> Inv (fold_left (fun m a => transform_atom a m) l x).
